@@ -322,6 +322,11 @@ func c11Gen(c *Ctx) (cs c11Case, cell string) {
 }
 
 func c11Run(c *Ctx) {
+	if inHistTail(c, int64(len(c11IntKinds)*35*57*len(c11Spell))+40000, int64(len(c11IntKinds)*35*57*len(c11Spell))+1500000) {
+		// the allowed values are the ones the option lists NOW: the program may edit Choices between two parses
+		histCase(c, GenDecl(c.Sub("dh"), histChoiceCfg()), []string{"choices-in-place", "choices-replaced"}, []string{"parse"})
+		return
+	}
 	cs, cell := c11Gen(c)
 	t := cs.T
 	d := &Decl{}
@@ -560,11 +565,11 @@ func init() {
 		Cases: func(tier string) int64 {
 			switch tier {
 			case "thorough":
-				return nInt + 1500000
+				return nInt + 1500000 + 50000 // + history cases
 			case "race":
 				return 0
 			}
-			return nInt + 40000
+			return nInt + 40000 + 2000 // + history cases
 		},
 		Run:           c11Run,
 		MinNontrivial: 500,
